@@ -41,12 +41,16 @@ class Check:
 
     def exec_and_validate(self, module, cmds, keyfn, accel=False, cost=None, shards=None,
                           result_keys=None, timeout=3000, tag="t", env=None, pure_budget=0,
-                          families=("bits",)):
+                          families=("bits",), variant=None):
         """Runs the commands on the real code, validates the events with TLC, confirms every
         distinct failure key by re-executing its scenario, and records it."""
         if not cmds:
             return []
-        events = core.run_driver(self.drv(), cmds, self.rd, tag=tag, env=env)
+        drvpath = self.drv()
+        if variant == "glue":          # the arm64 Go glue transplanted onto the amd64 kernels (vlib/glue.py)
+            from . import glue as _glue
+            drvpath = _glue.build_glue_driver(self)
+        events = core.run_driver(drvpath, cmds, self.rd, tag=tag, env=env)
         if accel:
             from . import accel as _accel
             _accel.selftest(self, families)
@@ -106,11 +110,11 @@ class Check:
         for k, bl in bykey.items():
             b = bl[0]
             sc_cmds = cmd_groups[b["sc"]]
-            ev2 = core.run_driver(self.drv(), sc_cmds, self.rd, tag=tag + "_re", env=env)
+            ev2 = core.run_driver(drvpath, sc_cmds, self.rd, tag=tag + "_re", env=env)
             bad2, _ = core.validate(self.rd, module, ev2, accel=accel, shards=1, timeout=timeout)
             if not any(keyfn(x) == k for x in bad2):
                 raise Infra("failure %s of scenario %s did not reproduce on replay" % (k, b["sc"]))
-            path = core.write_replay(self.prop, k, sc_cmds, extra=dict(module=module, accel=accel,
+            path = core.write_replay(self.prop, k, sc_cmds, extra=dict(module=module, accel=accel, variant=variant,
                                      why=b["why"], event=_shorten([b["ev"]])[0], count=len(bl), env=env or {}))
             self.bad.append(dict(key=k, why=b["why"], replay=path, count=len(bl)))
         return events
@@ -172,6 +176,11 @@ def generic_replay(prop, path):
     extra = obj.get("extra", {})
     rd = core.rundir(prop + "_replay")
     drv = core.build_driver(rd)
+    if extra.get("variant") == "glue":
+        from . import glue as _glue
+        chk = Check(prop, "quick")
+        drv = _glue.build_glue_driver(chk)
+        rd = chk.rd
     evs = core.run_driver(drv, obj["commands"], rd, tag="replay", env=extra.get("env") or None)
     bad, _ = core.validate(rd, extra["module"], evs, accel=extra.get("accel", False), shards=1)
     if bad:
